@@ -110,7 +110,7 @@ Fixpoint batch_remove (fuel : nat) (start lim : option key) (limit : Z) (s : sto
       | [] => Some (s, removed)
       | _ =>
           batch_remove f (match nx with Some k => Some k | None => start end) lim limit
-            (sdel_all b s) (removed + Z.of_nat (length b))
+            (sdel_all b s) (removed + Z.of_nat (List.length b))
       end
   end.
 
@@ -168,7 +168,7 @@ Definition p_iter (p : option key) (r : option range) (asc : bool) (stop : optio
   | Some p =>
       match rewrite_range p r with
       | None => RErr
-      | Some nr => RKVs (map (fun kv => (origkey (length p) (fst kv), snd kv)) (stop_at stop (raw_iter nr asc s)))
+      | Some nr => RKVs (map (fun kv => (origkey (List.length p) (fst kv), snd kv)) (stop_at stop (raw_iter nr asc s)))
       end
   end.
 Definition p_remove (p : option key) (s : store) : store * out :=
@@ -215,7 +215,7 @@ Definition step (st : state) (o : op) : state * out :=
   | ORawRemoveByPrefix p => upd (remove_by_prefix p s, ROk)
   | ORawBatchRemove r limit =>
       let r := match r with Some r => r | None => mkRange None None end in
-      match batch_remove (S (length s)) (rstart r) (rlimit r) limit s 0 with
+      match batch_remove (S (List.length s)) (rstart r) (rlimit r) limit s 0 with
       | Some (s', n) => upd (s', RNum n)
       | None => (st, RFuel)
       end
